@@ -5,6 +5,7 @@
 // the same text; the huge class checks that sums beyond INT_MAX are refused.
 #include <climits>
 #include <sys/mman.h>
+#include <set>
 #include "gen.hpp"
 #include "observe.hpp"
 
@@ -41,8 +42,13 @@ static Fields gen(Tape &t) {
     f.set("k." + std::to_string(i), k);
     if (!t.chance(1, 4)) f.set("v." + std::to_string(i), t.chance(1, 5) ? "" : g_qtext(t, 8));
   }
-  f.seti("s2p", t.below(2));
-  f.seti("nb", t.below(2));
+  // UriBool is an int: besides URI_FALSE / URI_TRUE one case in eight passes another non-zero value for a flag
+  // (what a C caller writing `flags & MASK` passes). Only the clauses that do not depend on how such a value is
+  // read are then asserted: never beyond maxChars, chars-required sufficient, written == length + 1, and the text
+  // must be the composition under one of the two readings.
+  static const int odd[] = {2, -1, 256};
+  f.seti("s2p", t.chance(15, 16) ? (long long)t.below(2) : odd[t.below(3)]);
+  f.seti("nb", t.chance(15, 16) ? (long long)t.below(2) : odd[t.below(3)]);
   f.seti("bc", t.below(4));
   f.seti("mm", t.below(2));
   f.seti("icnull", t.below(3) == 0);
@@ -120,9 +126,12 @@ template <class A> struct ListHolder {
 
 template <class A> static Verdict check_type(const Fields &f, const std::vector<Item> &l, bool *nontrivial) {
   using Ch = typename A::Ch;
-  bool s2p = f.geti("s2p"), nb = f.geti("nb"), plain = f.geti("plainapi");
+  int s2pRaw = (int)f.geti("s2p"), nbRaw = (int)f.geti("nb");
+  bool plain = f.geti("plainapi");
   int bc = (int)f.geti("bc");
-  if (plain) { s2p = true; nb = true; }
+  if (plain) { s2pRaw = 1; nbRaw = 1; }
+  bool s2p = s2pRaw != 0, nb = nbRaw != 0;
+  bool canon = (s2pRaw == 0 || s2pRaw == 1) && (nbRaw == 0 || nbRaw == 1);
   ListHolder<A> h;
   h.build(l);
   const typename A::QL *ql = h.nodes.data();
@@ -130,12 +139,36 @@ template <class A> static Verdict check_type(const Fields &f, const std::vector<
   UriMemoryManager *m = f.geti("mm") ? &mm.mm : nullptr;
   // required size
   int R = -1;
-  int rc = plain ? A::ComposeQueryCharsRequired(ql, &R) : A::ComposeQueryCharsRequiredEx(ql, &R, s2p, nb);
+  int rc = plain ? A::ComposeQueryCharsRequired(ql, &R) : A::ComposeQueryCharsRequiredEx(ql, &R, (UriBool)s2pRaw, (UriBool)nbRaw);
   VF_REQUIRE(rc == 0, "%s: charsRequired rc=%d", A::name(), rc);
   long long T = worst_case(l, nb);
   std::string want = m_compose(l, s2p, nb);
+  if (!canon) {
+    // the text under whichever reading of the odd flag value the library applies, taken from an ample guarded buffer
+    stats().relax("non_canonical_boolean_flag:safety_clauses_only");
+    VF_REQUIRE(R >= 0 && R < (1 << 20), "%s: implausible charsRequired %d", A::name(), R);
+    std::set<std::string> readings;
+    for (int a = 0; a < 2; a++) for (int b = 0; b < 2; b++) {
+      if ((s2pRaw == 0 || s2pRaw == 1) && a != (s2pRaw != 0)) continue;
+      if ((nbRaw == 0 || nbRaw == 1) && b != (nbRaw != 0)) continue;
+      readings.insert(m_compose(l, a != 0, b != 0));
+    }
+    size_t amp = (size_t)worst_case(l, true) + 8;
+    Ch *dest = gb().template right_chars<Ch>(amp);
+    for (size_t i = 0; i < amp; i++) dest[i] = (Ch)0xAA;
+    int cw = -7;
+    rc = A::ComposeQueryEx(dest, ql, (int)amp, &cw, (UriBool)s2pRaw, (UriBool)nbRaw);
+    VF_REQUIRE(rc == 0, "%s: composing into an ample buffer failed rc=%d", A::name(), rc);
+    size_t len = 0;
+    while (len < amp && dest[len] != 0) len++;
+    VF_REQUIRE(len < amp && cw == (int)len + 1, "%s: odd flag value: charsWritten=%d, text length %zu", A::name(), cw, len);
+    want = narrow<Ch>(dest, dest + len);
+    VF_REQUIRE(readings.count(want) == 1, "%s: flags (%d,%d): composed '%s' is the composition under neither reading of the flag", A::name(), s2pRaw, nbRaw, esc(want).c_str());
+    VF_REQUIRE((long long)R >= (long long)want.size(), "%s: flags (%d,%d): charsRequired=%d is smaller than the composed text (%zu)", A::name(), s2pRaw, nbRaw, R, want.size());
+  } else {
   VF_REQUIRE((long long)R >= (long long)want.size(), "%s: charsRequired=%d is smaller than the composed text (%zu)", A::name(), R, want.size());
   VF_REQUIRE((long long)R == T, "%s: charsRequired=%d, documented worst case %lld", A::name(), R, T);
+  }
   // every capacity
   std::vector<int> caps;
   if (R <= 300) for (int c = -1; c <= R + 2; c++) caps.push_back(c);
@@ -146,7 +179,7 @@ template <class A> static Verdict check_type(const Fields &f, const std::vector<
     Ch *dest = gb().template right_chars<Ch>(cap);
     for (size_t i = 0; i < cap; i++) dest[i] = (Ch)0xAA;
     int cw = -7;
-    rc = plain ? A::ComposeQuery(dest, ql, c, icnull ? nullptr : &cw) : A::ComposeQueryEx(dest, ql, c, icnull ? nullptr : &cw, s2p, nb);
+    rc = plain ? A::ComposeQuery(dest, ql, c, icnull ? nullptr : &cw) : A::ComposeQueryEx(dest, ql, c, icnull ? nullptr : &cw, (UriBool)s2pRaw, (UriBool)nbRaw);
     stats().sub_evaluations++;
     if (c >= R + 1) VF_REQUIRE(rc == 0, "%s: capacity %d >= charsRequired+1=%d but rc=%d", A::name(), c, R + 1, rc);
     if (rc == 0) {
@@ -168,7 +201,7 @@ template <class A> static Verdict check_type(const Fields &f, const std::vector<
   Ch *ms = nullptr;
   libc_ledger().track = true;
   long before = libc_ledger().outstanding;
-  rc = plain && !m ? A::ComposeQueryMalloc(&ms, ql) : A::ComposeQueryMallocExMm(&ms, ql, s2p, nb, m);
+  rc = plain && !m ? A::ComposeQueryMalloc(&ms, ql) : A::ComposeQueryMallocExMm(&ms, ql, (UriBool)s2pRaw, (UriBool)nbRaw, m);
   VF_REQUIRE(rc == 0 && ms != nullptr, "%s: composeQueryMalloc rc=%d", A::name(), rc);
   {
     size_t len = 0; while (ms[len] != 0) len++;
@@ -183,6 +216,11 @@ template <class A> static Verdict check_type(const Fields &f, const std::vector<
   if (!ww.empty()) memcpy(exact.get(), ww.data(), ww.size() * sizeof(Ch));
   rc = A::DissectQueryMallocExMm(&out, icnull ? nullptr : &count, exact.get(), exact.get() + ww.size(), s2p, (UriBreakConversion)bc, m);
   VF_REQUIRE(rc == 0, "%s: dissect rc=%d", A::name(), rc);
+  if (!canon) {  // which list comes back depends on the reading of the odd flag: not judged
+    if (m) { A::FreeQueryListMm(out, m); m->free(m, ms); VF_REQUIRE(mm.outstanding() == 0 && mm.bad_free == 0, "%s: manager ledger unbalanced", A::name()); }
+    else { A::FreeQueryList(out); free(ms); libc_ledger().outstanding--; libc_ledger().live.erase(ms); }
+    return Verdict::pass();
+  }
   std::vector<Item> expect;
   for (auto &it : l) if (!(it.key.empty() && !it.hasValue)) expect.push_back({expect_after(it.key, nb, bc), it.hasValue, expect_after(it.value, nb, bc)});
   size_t k = 0;
